@@ -359,7 +359,8 @@ PROPS = {
     },
     "C17": {
         "level": "other",
-        "verus": [("config", None), ("extractor", None)],
+        "verus": [("config", None), ("extractor", None), ("csvrow", ["callsite:to_double_entry.counter_posting_state", "callsite:to_double_entry.unmatched_income", "callsite:to_double_entry.unmatched_expense",
+                                                                       "callsite:csv::import.pending_unless_cleared"])],
         "kani": {"quick": [], "thorough": ["extractor_2rules_or1_and2", "extractor_2rules_or2_and1", "extractor_matches_statement_2rules"]},
         "family": ("c17", {"quick": [], "thorough": ["thorough"]}),
         "technique": "contract-based deductive verification: Verus on ConfigFragment::merge and on the whole rule engine (Extractor::extract, ExtractRule::extract, MatchOrExpr::extract, MatchAndExpr::extract, Fragment += and Fragment + Matched) extracted from /repo, "
@@ -368,7 +369,7 @@ PROPS = {
                        "recursive spec functions (group `extractor`; the iterator adapters try_fold / find_map / Option::map(|mut ..|) rewritten into their std definitions by rules R32-R34, the GAT polyfill <M as Entity>::T replaced by an opaque Copy type, R31): "
                        "rules apply in list order each seeing the fragment as rewritten by the earlier ones; an OR-list matches if any element does (the first matching one); an element matches only if all its fields do, later captures overriding earlier ones; "
                        "a matching rule's captures set payee and code, the rule's own payee overrides a captured one, its account replaces any earlier account (a rule without account keeps it), and the record is cleared (not pending) iff some matching "
-                       "account-assigning rule is not flagged pending - for any number of rules, elements and fields.  In the thorough tier Kani additionally runs the real "
+                       "account-assigning rule is not flagged pending - for any number of rules, elements and fields.  The last sentence of the statement is proved on slices of Txn::to_double_entry and of the importers (group `csvrow`): a record that no account-assigning rule matched goes to Income:Unknown when money comes in and to Expenses:Unknown when it goes out; the counter-posting takes the state the importer set - Pending unless the rules cleared the record - and without one is pending exactly when no rule assigned an account.  In the thorough tier Kani additionally runs the real "
                        "Extractor::extract / ExtractRule::extract / MatchOrExpr::extract / MatchAndExpr::extract / Fragment += / Fragment + Matched with a matcher whose answers are symbolic per payee seen, and compares all five "
                        "Fragment fields with the statement written as plain loops (rules in order each seeing the rewritten payee; OR = first matching element; AND = all fields; captures then rule payee override; account "
                        "replaces; cleared iff some matching account rule is not pending) for <= 2 rules x <= 2 OR x <= 2 AND.  ConfigSet::select_impl is proved too (group `config`; nested fn has_matches extracted as its own unit, filter_map / sort_by_key / fold / map rewritten into loops and a stable-sort model, std path and string functions modelled): "
@@ -382,7 +383,7 @@ PROPS = {
                         "TryFrom<ConfigFragment> for ConfigEntry as an uninterpreted function; R35 / R36: filter_map().collect() and into_iter().fold() replaced by their std definitions (loops)"],
         "bounded": ["thorough (Kani): 2 rules x 1 OR-element x <= 2 AND-fields; thorough: 2 rules x <= 2 OR x 1 field, and <= 2 rules x <= 2 OR x <= 2 AND (about 26 min); names from {None, p1, p2}",
                     "c17 family: base document + every ordered selection of <= 3 of 7 documents x 5 file paths; every list of <= 2 (quick: a third of the 3-rule lists; thorough: all) of 8 rules x 6 CSV rows"],
-        "not_decided": ["regex matchers and capture groups, construction of the matchers from the config (bounded family only)", "Income:/Expenses:Unknown fallback (family c16/c17)"],
+        "not_decided": ["regex matchers and capture groups, construction of the matchers from the config (bounded family only)"],
     },
     "C18": {
         "level": "other",
